@@ -72,7 +72,18 @@ def run_verus_unit(u, repo, bdir):
     for p in (gen, rep):
         if os.path.exists(p):
             os.remove(p)
-    p = subprocess.run([VX, "gen", "--repo", repo, "--template", os.path.join(ROOT, u["template"]), "--out", gen,
+    tpl = os.path.join(ROOT, u["template"])
+    if u.get("vars"):
+        t = open(tpl).read()
+        for k, v in u["vars"].items():
+            t = t.replace("{{" + k + "}}", v)
+        left = re.findall(r"\{\{[A-Z_]+\}\}", t)
+        if left:
+            res["reason"] = "template variables not bound: " + ", ".join(sorted(set(left)))
+            return res
+        tpl = os.path.join(bdir, uid + ".template.rs")
+        open(tpl, "w").write(t)
+    p = subprocess.run([VX, "gen", "--repo", repo, "--template", tpl, "--out", gen,
                         "--report", rep], capture_output=True, text=True)
     report = {}
     if os.path.exists(rep):
@@ -274,11 +285,11 @@ def run_witness(u, repo, bdir):
         cmd = ["cargo", "test", "--offline", "--test", name] + w.get("cargo_args", []) + ["--", "--nocapture", "--test-threads", "1"]
         try:
             p = subprocess.run(cmd, cwd=crate_dir, env=env, capture_output=True, text=True, timeout=w.get("timeout_s", 1800))
-            out = p.stdout + "\n" + p.stderr
+            out = p.stderr[-3000:] + "\n" + p.stdout
             rc = p.returncode
         except subprocess.TimeoutExpired:
             out, rc = "witness search timed out", 0
-        wit = [l for l in out.split("\n") if l.startswith("WITNESS")]
+        wit = [l[l.index("WITNESS "):] for l in out.split("\n") if "WITNESS " in l]
         return {"found": bool(wit), "witness_lines": wit, "output": out[-6000:], "cmd": " ".join(cmd), "rc": rc}
     finally:
         shutil.rmtree(sc, ignore_errors=True)
